@@ -88,6 +88,7 @@ class _Run:
         self.rng2 = random.Random(case["seed"] ^ 0x5EED)  # choices of the v2 ops (the v1 stream stays as it was)
         self.ops = []  # compact trace of the history (goes into every oracle hit)
         self.ndirs = 0
+        self.last_wopen = None
         self.step = 0  # number of the history step that is being executed (oracle hits carry it: shrink target)
 
     # -- directory helpers
@@ -174,11 +175,12 @@ class _Run:
         except Exception as e:
             # mode "x" on a name that is taken: FileExistsError (HDF5: "file exists" when it has the file open itself)
             refused = isinstance(e, FileExistsError) or (isinstance(e, OSError) and "file exists" in str(e).lower())
-            self.out[slot] = "w refuse" if refused else "err"
+            self.out[slot] = self.last_wopen = "w refuse" if refused else "err"
             raise
         n = len(q.ih5_files)
         self.out[slot] = ("w reopen" if n == len(files) and q._has_writable else "w create" if n == len(files) + 1 and q._has_writable
                           else "w other:%d:%d" % (n - len(files), q._has_writable))
+        self.last_wopen = self.out[slot]
         self.tags.add("wopen:" + self.out[slot][2:])
         return q
 
@@ -203,7 +205,7 @@ class _Run:
         try:
             q = self.wopen(paths, [os.path.basename(str(p)) for p in paths], mode)
         except Exception as e:  # noqa: BLE001
-            self.tags.add("prefix-open:%s" % ("refused" if self.out and "w refuse" in self.out else "failed:" + type(e).__name__))
+            self.tags.add("prefix-open:%s" % ("refused" if self.last_wopen == "w refuse" else "failed:" + type(e).__name__))
             del e
             gc.collect()
             _close_leaked()
@@ -715,7 +717,10 @@ def gen_cases(ctx):
 
 def run(ctx):
     ctx.rule = ("(snap) random patching history on a real record; directory copied after every API call and around the file-system steps "
-                "inside create/commit; every copy opened as 'committed files only' and 'all files'. (torn) every save(): all 1025 cuts "
+                "inside create/commit; every copy opened as 'committed files only' and 'all files'; close/reopen steps close without commit or continue "
+                "in a crash image, then re-open in every writable mode ('r+', 'a') and constructor form (name, file list, shuffled list), with "
+                "writable opens of a strict prefix of the file list in between (what the open does is compared with the model openW). "
+                "(torn) every save(): all 1025 cuts "
                 "after[:k]+before[k:] classified by the real IH5UserBlock.load and by the model; distinct torn blocks opened inside the file set. "
                 "(kill, thorough) writer subprocess killed with SIGKILL after a random delay. Non-trivial = tagged by API call x view x outcome, "
                 "torn classification alphabet, kill outcome.")
